@@ -20,7 +20,8 @@ THEOREMS = [
     'IblVerif.C01.cbin_int_below_minus_ns_counterexample',
     'IblVerif.C01.cbin_numpy_integer_counterexample',
     'IblVerif.C01.getitem_dispatch',
-    'IblVerif.C01.getitem_lone_list_counterexample',
+    'IblVerif.C01.getitem_dispatch_cbin_partial',
+    'IblVerif.C01.getitem_lone_list_rows',
     'IblVerif.C01.read_samples_eq',
     'IblVerif.C01.read_slice_entry',
     'IblVerif.C01.sync_unscaled',
@@ -42,7 +43,7 @@ RULE = ('synthetic recordings built from every fixture meta of src/tests/fixture
         '(1..40 sites: dense, shuffled, reversed, interleaved shanks, few distinct rows/cols with exact duplicates) with non-uniform '
         'imro gains / varied imAiRangeMax, imMaxInt, nidq group counts and gains; random int16 content with planted extremes; .bin and '
         '.cbin (mtscomp chunks of 2..9 samples so slices straddle chunks); sort True/False.  Per recording: raw_channel_order, the '
-        'volts-per-bit vector (bit patterns), every geometry vector, and 12-16 reads through sr[nsel, csel], sr[nsel], sr.read and '
+        'volts-per-bit vector (bit patterns), every geometry vector, and 12-16 reads through sr[nsel, csel], sr[item] (lone int, NumPy int, slice, list/array of samples incl. length 2, tuples of ints), sr.read and '
         'sr.read_samples with boundary-biased selectors (ints incl. -n, n, out of range; NumPy integers; slices with every None/sign '
         'pattern, steps +-1..3, +-n, huge, 0; lists/arrays incl. empty, duplicates, negative, out of range; empty selectors) compared '
         'as shape + float32 bit patterns or exception class; for a third of the reads the specification selectM is also compared with '
@@ -55,7 +56,7 @@ ASSUMPTIONS = [
     'which exception is reported when BOTH selectors are invalid is not part of the property: the specification validates the channel selector first, like the code',
     'on .cbin files list/array sample selectors are outside the property (mtscomp raises NotImplementedError; the model follows it)',
     'known findings on .cbin (model follows the code, theorem carries the excluding hypothesis, oracle excludes exactly them): negative-step sample slice -> empty (F17); Python int sample index < -ns wraps; NumPy integer sample index -> empty',
-    'known finding: a lone list/array handed to sr[...] is taken for (nsel, csel) when it has two elements and yields None otherwise; the oracle only uses lone int/slice selectors',
+    'sr[t] with a tuple t of another length than two (the code hands it to read as the sample selector; NumPy itself would reject A[i, j, k]) is outside the property: the model follows the code for tuples of Python ints, the oracle does not use them',
     'site-table keys (shank, row, col) are integer valued (asserted on every generated table); the geometry conversion itself (col flip, x/y) belongs to C08: the unsorted geometry of the real code is the input of the order model',
     'read_samples: only its data part is compared (Reader.read_sync is stubbed during the call; sync decoding is C10)',
     'ties of (shank, row, col): the model breaks them by on-disk index (np.lexsort is stable) and proves that; the comparison of raw_channel_order with the model and the oracle accept any order among electrodes with identical (shank, row, col), as the property does; the reads are then modelled with the order the reader reports',
@@ -310,22 +311,26 @@ def gen_ops(rng, ns, nc, backend, big):
     # the classic whole-array reads and a reversed one
     ops.append(['read', 'getitem', 's:_:_:_', 's:_:_:_'])
     ops.append(['read', 'getitem', 's:_:_:-1' if backend == 'bin' or rng.random() < 0.3 else 's:_:_:2', 's:_:_:-1'])
-    # lone selectors: int / slice (the property's forms) and, rarely, the list / NumPy-int quirks
-    for _ in range(2):
+    # lone selectors sr[item]: int, slice, NumPy integer, list / array of samples (length 2 included), tuples of ints
+    for _ in range(3):
         u = rng.random()
-        if u < 0.4:
+        if u < 0.25:
             ops.append(['item1', f'i:{_gen_int(rng, ns)}'])
-        elif u < 0.88:
+        elif u < 0.50:
             s = gen_sel(rng, ns)
             while not s.startswith('s:'):
                 s = gen_sel(rng, ns)
             ops.append(['item1', s])
+        elif u < 0.62:     # exactly two elements: used to be mistaken for (nsel, csel)
+            ops.append(['item1', 'l:' + ','.join(str(_gen_int(rng, ns) if rng.random() < 0.15 else int(rng.integers(-ns, ns))) for _ in range(2))])
+        elif u < 0.80:
+            ops.append(['item1', 'l:' + (','.join(map(str, _gen_list(rng, ns, maxlen=5))) or '-')])
+        elif u < 0.88:
+            ops.append(['item1', f'n:{_gen_int(rng, ns)}'])
         elif u < 0.94:
-            ops.append(['item1', 'l:' + ','.join(str(int(rng.integers(0, min(ns, nc)))) for _ in range(int(rng.integers(1, 4))))])
-        elif u < 0.97:
-            ops.append(['item1', f'n:{int(rng.integers(0, ns))}'])
+            ops.append(['itemt', gen_sel(rng, ns), gen_sel(rng, nc, big=big)])
         else:
-            ops.append(['itemt'] + [f'i:{int(rng.integers(0, min(ns, nc)))}' for _ in range(int(rng.choice([0, 1, 3])))])
+            ops.append(['itemi', ','.join(str(int(rng.integers(-ns, ns + 1))) for _ in range(int(rng.choice([0, 1, 2, 3, 4])))) or '-'])
     # read_samples(first, last, channels)
     a = int(rng.integers(-ns - 1, ns + 2))
     b = int(rng.integers(-ns - 1, ns + 2))
@@ -468,12 +473,14 @@ def run_op(sr, op, array_lists=False):
             nsel, csel = py_sel(op[2], array_lists), py_sel(op[3], array_lists)
             r = sr[nsel, csel] if op[1] == 'getitem' else sr.read(nsel=nsel, csel=csel, sync=False)
         elif op[0] == 'item1':
-            r = sr[py_sel(op[1])]      # a lone list stays a Python list (its elements are Python ints)
+            r = sr[py_sel(op[1], array_lists)]
         elif op[0] == 'itemt':
-            r = sr[tuple(py_sel(t) for t in op[1:])]
+            r = sr[py_sel(op[1], array_lists), py_sel(op[2], array_lists)]
+        elif op[0] == 'itemi':
+            r = sr[tuple([] if op[1] == '-' else [int(v) for v in op[1].split(',')])]
         elif op[0] == 'rs':
-            # data part of read_samples only: the sync part (read_sync, C10) is stubbed; on nidq files with analog sync
-            # channels np.percentile raises IndexError for an empty sample range
+            # data part of read_samples only: the sync part (read_sync, C10) is stubbed; on synthetic nidq layouts
+            # without digital sync words (snsMnMaXaDw = a,b,c,0) read_sync raises ValueError, which is not C01's subject
             sr.read_sync = lambda *a, **k: None
             try:
                 r = sr.read_samples(int(op[1]), int(op[2]), None if op[3] == 'none' else py_sel(op[3], array_lists))
@@ -568,11 +575,11 @@ def _tags(spec, op, impl_ans, order_ident, uniform):
     w = impl_ans.split()
     if impl_ans.startswith('err'):
         t.append('out=' + ' '.join(w[:2]))
-    elif op[0] in ('read', 'item1', 'itemt', 'rs', 'select'):
+    elif op[0] in ('read', 'item1', 'itemt', 'itemi', 'rs', 'select'):
         kind = w[1] if len(w) > 1 else '?'
         empty = (kind == 'v' and w[2] == '0') or (kind == 'm' and (w[2] == '0' or w[3] == '0'))
         t.append('out=' + {'s': '0-d', 'v': '1-d', 'm': '2-d'}.get(kind, kind) + (' empty' if empty else ''))
-    sels = op[2:4] if op[0] in ('read', 'select') else ([op[1]] if op[0] == 'item1' else ([op[3]] if op[0] == 'rs' and op[3] != 'none' else []))
+    sels = op[2:4] if op[0] in ('read', 'select') else (op[1:3] if op[0] == 'itemt' else [op[1]] if op[0] == 'item1' else ([op[3]] if op[0] == 'rs' and op[3] != 'none' else []))
     for ax, s in zip(('n', 'c'), sels):
         kind = s[0]
         if kind == 's':
@@ -730,10 +737,8 @@ def own_gains(meta_text, nc):
 def excluded(spec, op):
     """input classes outside the property or listed as known findings (exactly those)"""
     ns = spec['ns']
-    if op[0] == 'itemt' and len(op) != 3:
-        return 'tuple of other than two selectors'
-    if op[0] == 'item1' and op[1][0] in 'ln':
-        return 'lone list / NumPy-integer selector (known finding lone_list_selector_dispatch)'
+    if op[0] == 'itemi':
+        return 'tuple of ints handed to sr[...] (NumPy itself rejects A[i, j, k]; length two is covered by itemt)'
     nsel = op[2] if op[0] == 'read' else op[1] if op[0] in ('item1', 'itemt') else None
     if spec['backend'] == 'cbin' and nsel is not None:
         if nsel[0] == 'l':
@@ -804,9 +809,9 @@ def oracle_recording(R, ops=None):
                 if op[0] == 'read':
                     exp = A[py_sel(op[2], arr), :][..., py_sel(op[3], arr)]
                 elif op[0] == 'item1':
-                    exp = A[py_sel(op[1])]
+                    exp = A[py_sel(op[1], arr)]
                 elif op[0] == 'itemt':
-                    exp = A[py_sel(op[1]), :][..., py_sel(op[2])]
+                    exp = A[py_sel(op[1], arr), :][..., py_sel(op[2], arr)]
                 else:
                     exp = A[int(op[1]):int(op[2]), :][..., slice(None) if op[3] == 'none' else py_sel(op[3], arr)]
                 exp = canon(np.asarray(exp))
@@ -882,7 +887,8 @@ def search(ctx, reasons):
             if ns2 > spec['ns'] or D is None:
                 continue
             s2 = dict(spec, ns=ns2)
-            simple = [['read', 'getitem', 'i:0', 'i:0'], ['read', 'getitem', 's:_:_:_', 's:_:_:_'], ['read', 'getitem', 's:_:_:_', 'i:0']]
+            simple = [['read', 'getitem', 'i:0', 'i:0'], ['read', 'getitem', 's:_:_:_', 's:_:_:_'], ['read', 'getitem', 's:_:_:_', 'i:0'],
+                      ['item1', 'l:0,0'], ['item1', 'l:0'], ['item1', 'n:0']]
             for ops in ([o] for o in simple + ([op] if op[0] in ('read', 'item1', 'itemt', 'rs') else [])):
                 r2, D2 = _check_spec(s2, data=D[:ns2], ops=ops)
                 if r2 is not None:
@@ -939,13 +945,6 @@ def _differs(sel_n, what):
 
 
 def known_findings(ctx):
-    def lone_list():
-        R = _demo_rec('bin')
-        try:
-            a, b, c = R.sr[[3, 4]], R.sr[3, 4], R.sr[[1, 2, 3]]
-            return np.ndim(a) == 0 and a == b and c is None
-        finally:
-            R.close()
     return {
         'cbin_negative_step_sample_slice':
             lambda: _differs(slice(None, None, -1), lambda b, c: getattr(b, 'shape', None) == (7, 3) and getattr(c, 'shape', None) == (0, 3)),
@@ -953,7 +952,6 @@ def known_findings(ctx):
             lambda: _differs(-8, lambda b, c: b == 'IndexError' and getattr(c, 'shape', None) == (3,)),
         'cbin_numpy_integer_sample_index_empty':
             lambda: _differs(np.int64(2), lambda b, c: getattr(b, 'shape', None) == (3,) and getattr(c, 'shape', None) == (0, 3)),
-        'lone_list_selector_dispatch': lone_list,
     }
 
 
